@@ -472,6 +472,23 @@ def path_conds(body, target):
             if n.get("e") is not None and contains(n["e"], target):
                 return go(n["e"], acc + [(n["c"], False)])
             return None
+        if k == "Match":
+            if contains(n["e"], target):
+                return acc
+            for i, a in enumerate(n["arms"]):
+                if not contains(a, target):
+                    continue
+                cur = list(acc)
+                # an arm is reached only if the guards of the earlier arms with the same pattern heads failed
+                for b in n["arms"][:i]:
+                    if b.get("guard") is not None and set(pat_heads(b["pat"])) == set(pat_heads(a["pat"])):
+                        cur.append((b["guard"], False))
+                if a.get("guard") is not None:
+                    if contains(a["guard"], target):
+                        return cur
+                    cur.append((a["guard"], True))
+                return go(a["body"], cur)
+            return None
         for c in children(n):
             if isinstance(c, dict) and contains(c, target):
                 return go(c, acc)
